@@ -110,6 +110,9 @@ func (e *Exec) rvInterface(rv RValue) Value {
 	if rv.t == nil {
 		e.valueErrorPanic("reflect.Value.Interface", reflect.Invalid)
 	}
+	if rv.ro {
+		e.reflectPanic("reflect.Value.Interface: cannot return value obtained from unexported field or method")
+	}
 	if _, ok := under(rv.t).(*types.Interface); ok {
 		return rv.v.(Iface)
 	}
@@ -284,7 +287,7 @@ func init() {
 		if rv(a[0]).t == nil {
 			e.valueErrorPanic("reflect.Value.CanInterface", reflect.Invalid)
 		}
-		return true
+		return !rv(a[0]).ro
 	})
 	R("(reflect.Value).Interface", func(e *Exec, _ *frame, a []Value) Value { return e.rvInterface(rv(a[0])) })
 	R("(reflect.Value).Type", func(e *Exec, _ *frame, a []Value) Value {
@@ -529,10 +532,9 @@ func init() {
 		if r.t == nil || !ok {
 			e.valueErrorPanic("reflect.Value.FieldByName", kindOf(r.t))
 		}
-		name := e.concretizeStr(a[1].(Str), "FieldByName")
 		for i := 0; i < st.NumFields(); i++ {
-			if st.Field(i).Name() == name {
-				return RValue{t: st.Field(i).Type(), v: copyVal(r.v.(Struct)[i])}
+			if e.nameIs(a[1].(Str), st.Field(i).Name()) {
+				return RValue{t: st.Field(i).Type(), v: copyVal(r.v.(Struct)[i]), ro: r.ro || !st.Field(i).Exported()}
 			}
 		}
 		return RValue{}
@@ -547,7 +549,7 @@ func init() {
 		if i < 0 || i >= st.NumFields() {
 			e.reflectPanic("reflect: Field index out of range")
 		}
-		return RValue{t: st.Field(i).Type(), v: copyVal(r.v.(Struct)[i])}
+		return RValue{t: st.Field(i).Type(), v: copyVal(r.v.(Struct)[i]), ro: r.ro || !st.Field(i).Exported()}
 	})
 	R("(reflect.Value).NumField", func(e *Exec, _ *frame, a []Value) Value {
 		r := rv(a[0])
@@ -562,7 +564,10 @@ func init() {
 		if r.t == nil {
 			e.valueErrorPanic("reflect.Value.MethodByName", reflect.Invalid)
 		}
-		name := e.concretizeStr(a[1].(Str), "MethodByName")
+		name, found := e.nameAmong(a[1].(Str), e.methodNames(r.t))
+		if !found {
+			return RValue{}
+		}
 		sel := e.prog.MethodSets.MethodSet(r.t).Lookup(nil, name)
 		if sel == nil || !sel.Obj().Exported() {
 			return RValue{}
@@ -874,9 +879,8 @@ func (e *Exec) rtypeMethod(rt RType, name string, a []Value) Value {
 		kindPanic()
 	case "FieldByName":
 		if u, ok := under(t).(*types.Struct); ok {
-			nm := e.concretizeStr(a[0].(Str), "FieldByName")
 			for i := 0; i < u.NumFields(); i++ {
-				if u.Field(i).Name() == nm {
+				if e.nameIs(a[0].(Str), u.Field(i).Name()) {
 					return Tuple{e.structField(u, i), true}
 				}
 			}
@@ -886,9 +890,12 @@ func (e *Exec) rtypeMethod(rt RType, name string, a []Value) Value {
 	case "NumMethod":
 		return int64(e.prog.MethodSets.MethodSet(t).Len())
 	case "MethodByName":
-		nm := e.concretizeStr(a[0].(Str), "MethodByName")
-		sel := e.prog.MethodSets.MethodSet(t).Lookup(nil, nm)
 		m := e.zero(e.w.methodT).(Struct)
+		nm, found := e.nameAmong(a[0].(Str), e.methodNames(t))
+		if !found {
+			return Tuple{m, false}
+		}
+		sel := e.prog.MethodSets.MethodSet(t).Lookup(nil, nm)
 		if sel == nil || !sel.Obj().Exported() {
 			return Tuple{m, false}
 		}
@@ -929,4 +936,35 @@ func (e *Exec) structField(u *types.Struct, i int) Value {
 		}
 	}
 	return sf
+}
+
+// nameIs decides whether the (possibly symbolic) string s equals the concrete name, forking if needed.
+func (e *Exec) nameIs(s Str, name string) bool {
+	switch eq := e.strEq(s, mkStr(name)).(type) {
+	case bool:
+		return eq
+	case Sym:
+		return e.path.branch(e, eq.t, "name")
+	}
+	return false
+}
+
+func (e *Exec) nameAmong(s Str, names []string) (string, bool) {
+	for _, n := range names {
+		if e.nameIs(s, n) {
+			return n, true
+		}
+	}
+	return "", false
+}
+
+func (e *Exec) methodNames(t types.Type) []string {
+	ms := e.prog.MethodSets.MethodSet(t)
+	var out []string
+	for i := 0; i < ms.Len(); i++ {
+		if ms.At(i).Obj().Exported() {
+			out = append(out, ms.At(i).Obj().Name())
+		}
+	}
+	return out
 }
